@@ -21,6 +21,13 @@ spec/trace/NtsCookiesTrace.tla with NtsCookiesTrace_c12.cfg: every cookie of eve
 recorded reply names a key generated no more than the renewal interval before the
 reply was sent, and valid for two more days.
 
+The cookie as the carrier of the identifier, and the randomness source: every key
+Current() returns seals a cookie through the servers' path (EncryptWithNonce(key.Value,
+key.ID), Encode) and "open" presents it again the way the listeners do (Decode,
+Get(int(cookie.ID)), Decrypt); the clause CookieUsable of the property section judges
+the recorded presentations.  crypto/rand.Reader is scripted per provider instance with
+the class the specification generates (KeyProvider!draw).
+
 Self-test knob: VERIF_C12_CORRUPT=ok|nb|id corrupts one field of one recorded
 return before validation (negative control of the monitor; expect exit 1).
 """
@@ -71,16 +78,18 @@ def _stats(behs):
     """Coverage facts measured on the recorded behaviours (python only counts; it judges nothing)."""
     st = dict(renewals=0, get_ok=0, get_fail=0, get_at_notafter_ok=0, get_after_notafter_fail=0,
               cur_at_24h_kept=0, cur_after_24h_renewed=0, get_at_48h_after_issue=0, concurrent_phases=0,
-              inexact=0, panics=0)
+              inexact=0, panics=0, opens_ok=0, opens_fail=0, opens_within_48h=0, opens_at_48h=0,
+              opens_after_72h_fail=0, opens_after_rotation_ok=0)
     nontrivial = set()
     for b in behs:
         keys = {}       # id -> (nb, na) as returned
         issued = {}     # id -> last issue instant
+        held = {}       # carried id -> (issue instant, generation instant of its key) of the latest cookie
         lastcur = None
         interesting = False
         phases = {}
         for e in b:
-            if e["op"] in ("cur", "get"):
+            if e["op"] in ("cur", "get", "open"):
                 phases[e["ph"]] = phases.get(e["ph"], 0) + 1
                 if not e["exact"]:
                     st["inexact"] += 1
@@ -99,7 +108,20 @@ def _stats(behs):
                     st["cur_at_24h_kept"] += 1
                 keys[e["id"]] = (e["nb"], e["na"])
                 issued[e["id"]] = e["t"]
+                held[e["cid"]] = (e["t"], e["nb"])
                 lastcur = (e["id"], e["nb"])
+            elif e["op"] == "open":
+                st["opens_ok" if e["ok"] else "opens_fail"] += 1
+                it, inb = held.get(e["arg"], (None, None))
+                if it is not None:
+                    if e["t"] <= it + 2 * DAY:
+                        st["opens_within_48h"] += 1
+                    if e["t"] == it + 2 * DAY:
+                        st["opens_at_48h"] += 1
+                    if e["t"] > inb + 3 * DAY and not e["ok"]:
+                        st["opens_after_72h_fail"] += 1
+                    if e["ok"] and inb > 0:
+                        st["opens_after_rotation_ok"] += 1
             elif e["op"] == "get":
                 if e["ok"]:
                     st["get_ok"] += 1
@@ -190,7 +212,7 @@ def _judge(ctx, val, behs):
         b = behs.pop(bi)
         e = b[ri]
         cls = "concurrent" if e["src"] == "rnd" else "sequential"
-        sig = "C12 %s %s %s" % (inv, "Current" if e["op"] == "cur" else "Get", cls)
+        sig = "C12 %s %s %s" % (inv, {"cur": "Current", "open": "Open"}.get(e["op"], "Get"), cls)
         with val.lock:
             dup = sig in val.sigs
             val.sigs.add(sig)
@@ -198,8 +220,9 @@ def _judge(ctx, val, behs):
             continue
         ctx.violation(sig,
                       "ntske.Provider: recorded %s call violates %s (t=%ds, arg=%s, returned ok=%s id=%s "
-                      "notBefore=%ds notAfter=%ds; behaviour %d from %s)"
-                      % (e["op"], inv, e["t"], e["arg"], e["ok"], e["id"], e["nb"], e["na"], e["b"], e["src"]),
+                      "notBefore=%ds notAfter=%ds%s; behaviour %d from %s, rand.Reader class %s)"
+                      % (e["op"], inv, e["t"], e["arg"], e["ok"], e["id"], e["nb"], e["na"],
+                         "; cookie refused: " + e["why"] if e.get("why") else "", e["b"], e["src"], b[0].get("draw")),
                       dict(invariant=inv, failing_record=e, behaviour=b[:ri + 1]))
     else:
         return 0, 0
@@ -377,12 +400,48 @@ def _pipeline(ctx, pool):
         s2 = ctx.tlc("KeyProviderMC", "KeyProvider_simdeep.cfg", workers=1, timeout=600, tag="simdeep",
                      simulate="num=%d" % nsim, depth=depth)
         sims += _cases(ctx, s2, "sim")
-    if len(cases) < 5000 or len(sims) < nsim:
-        raise vlib.Inconclusive("behaviour generator produced only %d + %d behaviours" % (len(cases), len(sims)))
-    cases += sims
+    gc = ctx.tlc("KeyProviderMC", "KeyProvider_gencookie.cfg" if q else "KeyProvider_gencookiedeep.cfg", workers=1,
+                 timeout=600, tag="gencookie")
+    walks = _cases(ctx, gc, "gen")
+    if len(cases) < 5000 or len(sims) < nsim or len(walks) < 1000:
+        raise vlib.Inconclusive("behaviour generator produced only %d + %d + %d behaviours" % (len(cases), len(sims), len(walks)))
+    # vacuity of the new dimension, judged on the specification's side: per class of the randomness source, how many
+    # generated behaviours present a cookie within two days of its issue / one sealed under a rotated key / a dead one
+    dim = {}
+    for c in walks + sims:
+        d = dim.setdefault(c.get("draw", "?"), collections.Counter())
+        held, fl = {}, set()
+        for e in c["h"]:
+            if e["op"] == "cur":
+                held[e["cid"]] = (e["t"], e["nb"])
+            elif e["op"] == "open":
+                it, inb = held[e["arg"]]
+                fl.add("open")
+                if e["ok"] and e["t"] <= it + 2 * c["day"]:
+                    fl.add("open_within_2d")
+                if e["ok"] and inb > 0:
+                    fl.add("open_rotated_key")
+                if not e["ok"]:
+                    fl.add("open_expired")
+        d["behaviours"] += 1
+        d.update(fl)
+    lacking = [(k, f) for k in ("zero", "ones", "fffe", "real") for f in ("open_within_2d", "open_rotated_key", "open_expired")
+               if not dim.get(k, {}).get(f)]
+    if lacking:
+        raise vlib.Inconclusive("generated behaviours never exercise (rand.Reader class, cookie presentation): %s" % lacking)
+    ctx.cov["cookie_dimension_spec_side"] = {k: dict(v) for k, v in sorted(dim.items())}
+    ctx.notes.append(
+        "cookie as carrier of the identifier + scripted rand.Reader: %d TLC-enumerated cookie walks (Advance/Current+seal/Open, "
+        "all 4 classes of leading random bytes) and %d simulated behaviours; per class, generated behaviours that present a cookie "
+        "within 2 days of issue / one sealed under a rotated key / an expired one: %s"
+        % (len(walks), len(sims), "; ".join("%s %d/%d/%d of %d" % (k, v["open_within_2d"], v["open_rotated_key"], v["open_expired"],
+                                                                      v["behaviours"]) for k, v in sorted(dim.items()))))
+    ctx.log(ctx.notes[-1])
+    cases += walks + sims
     cp = ctx.path("cases.ndjson")
     vlib.write_ndjson(cp, cases)
-    ctx.log("TLC generated %d behaviours (%d exhaustive at bounded length, %d simulated)" % (len(cases), len(cases) - len(sims), len(sims)))
+    ctx.log("TLC generated %d behaviours (%d exhaustive at bounded length, of which %d cookie walks; %d simulated)"
+            % (len(cases), len(cases) - len(sims), len(walks), len(sims)))
 
     # 3. the real Provider under synctest: replay + 8-goroutine random driver
     nrnd = 60 if q else 500
@@ -408,7 +467,8 @@ def _pipeline(ctx, pool):
     ctx.log("driver: %d records, %d behaviours (%d replayed, %d concurrent); %s" % (len(recs), len(behs), len(cases), nrnd, st))
     if not ck:
         for k in ("renewals", "get_at_notafter_ok", "get_after_notafter_fail", "cur_at_24h_kept",
-                  "cur_after_24h_renewed", "get_at_48h_after_issue", "concurrent_phases"):
+                  "cur_after_24h_renewed", "get_at_48h_after_issue", "concurrent_phases", "opens_within_48h",
+                  "opens_at_48h", "opens_after_72h_fail", "opens_after_rotation_ok"):
             if st[k] == 0 and not ctx.violations:
                 ctx.notes.append("coverage: no recorded call of class %s" % k)
 
@@ -426,14 +486,16 @@ def _pipeline(ctx, pool):
         ctx.notes.append("%d returns had instants that are not whole seconds: judged by raw_ok only" % st["inexact"])
 
     def show(b):
-        return [dict(op=e["op"], t=e["t"], arg=e["arg"], ok=e["ok"], id=e["id"], nb=e["nb"], na=e["na"], ph=e["ph"], g=e["g"])
+        return [dict(op=e["op"], t=e["t"], arg=e["arg"], ok=e["ok"], id=e["id"], nb=e["nb"], na=e["na"], ph=e["ph"], g=e["g"],
+                     cid=e["cid"], draw=e["draw"])
                 for e in b[:12]]
     rnd = [b for b in behs if b[0]["src"] == "rnd"]
     sim = [b for b in behs if b[0]["src"] == "sim"]
     ctx.cov.update(
         evaluations=len(recs) - len(behs), distinct_nontrivial=nontriv,
         rule="calls recorded from the real Provider: every behaviour of GenLen events over {Advance(6h,24h,30h,48h,72h,78h), "
-             "Current, Get(any id generated so far, 0, next)} enumerated by TLC (no two clock steps in a row), TLC -simulate "
+             "Current, Get(any id generated so far, 0, next)} and every cookie walk over {Advance, Current+seal, Open(any cookie held)} "
+             "x {rand.Reader leading bytes 00.., ff.., ff fe.., real} enumerated by TLC (no two clock steps in a row), TLC -simulate "
              "behaviours of 30-40 events (6 h and 1 h units, 40 days), and seeded phases of 8 goroutines calling at one virtual "
              "instant with gaps on and around 24/48/72 h; distinct_nontrivial = distinct behaviours (op, arg, instant, goroutine "
              "sequence) containing a key renewal or a failed look-up of a retired key",
@@ -445,6 +507,12 @@ def _pipeline(ctx, pool):
         "exhaustive model checking is small-scope: 6 h units / 10 days (quick), 3 h units / 10 days and 1 h units with "
         "gaps at the 1/2/3-day marks +-1 h (thorough); identifiers stay far below math.MaxInt",
         "key values are compared by identity of the 32 random bytes; their randomness is not examined",
+        "the cookie carries the key identifier in 16 bits (EncryptWithNonce: uint16(keyid)); on the unchanged tree identifiers "
+        "start at 1 and grow by one per generated key, so the carrier is exhausted only after 65535 key generations (>= 179 "
+        "years of daily rotation); 'identifiers never repeat' and a 16-bit carrier cannot both hold beyond that, so the horizon "
+        "of 'spanning many days' is taken as < 2^16 key generations (KeyProvider!CarrierFits is an invariant of the model)",
+        "rand.Reader is scripted by class of the leading bytes of every read (00.., ff.., ff fe.., real) with a counter after "
+        "them, so key values and nonces stay distinct; read errors of the source are not generated",
         "real-time order between overlapping calls of one phase is unknown; an issue obliges look-ups of later phases only",
     ]
     return nval
